@@ -9,8 +9,8 @@ from dataclasses import dataclass
 @dataclass
 class NodalAnalysisBiasPointSolution(NodalAnalysisSolution):
     def __post_init__(self) -> None:
-        A = nodal_analysis_coefficient_matrix(self.network, node_mapper=self.node_mapper)
-        b = nodal_analysis_constants_vector(self.network, node_mapper=self.node_mapper)
+        A = nodal_analysis_coefficient_matrix(self.network, node_mapper=self.node_mapper, source_mapper=self.voltage_source_mapper)
+        b = nodal_analysis_constants_vector(self.network, node_mapper=self.node_mapper, current_source_mapper=self.current_source_mapper, voltage_source_mapper=self.voltage_source_mapper)
         try:
             self._solution_vector = np.linalg.solve(A, b)
         except np.linalg.LinAlgError:
